@@ -38,6 +38,7 @@ The attribute of a value expression is the first `self.…` chain in it, method-
 from __future__ import annotations
 
 import ast
+import copy
 from pathlib import Path
 
 PKGS = ("torchtree/optim", "torchtree/inference")
@@ -50,6 +51,8 @@ class Unrecognised(Exception):
 
 # ----------------------------------------------------------------------------- class table
 def collect(repo: Path):
+    repo = Path(repo)
+    MODFUNCS.clear()
     classes = {}
     for pkg in PKGS:
         for f in sorted((repo / pkg).rglob("*.py")):
@@ -58,6 +61,8 @@ def collect(repo: Path):
             except SyntaxError as e:
                 raise Unrecognised(f"syntax error in {f}: {e}")
             for node in tree.body:
+                if isinstance(node, ast.FunctionDef):
+                    MODFUNCS.setdefault(node.name, node)
                 if isinstance(node, ast.ClassDef):
                     bases = []
                     for b in node.bases:
@@ -157,11 +162,13 @@ def norm_cond(e):
             and self_chain(e.args[0]) and isinstance(e.args[1], ast.Constant)
             and e.args[1].value in ("state_dict", "load_state_dict")):
         return "hasSD:" + self_chain(e.args[0])
+    if self_chain(e) and not isinstance(e, ast.Call):
+        return "nonempty:" + self_chain(e)  # `if self._xs:` for a container attribute
     raise Unrecognised("condition " + ast.unparse(e))
 
 
 def join(conds):
-    return "&".join(conds)
+    return "&".join(dict.fromkeys(c for c in conds if c))
 
 
 def sd_keys(e, sd):
@@ -176,28 +183,237 @@ def sd_keys(e, sd):
     return out
 
 
-def call_names(e):
-    """names of the functions called inside expression e (last component), sorted, comma separated"""
+CTX = {"classes": None, "cname": None, "locals": set()}
+INCIDENTAL = {"dict"}  # a shallow copy of the saved dictionary before editing it: not a function the value goes through
+
+
+def call_names(e, depth=3):
+    """names of the functions a value goes through inside e (last component). A private helper (module function of the scanned
+    packages / method of the same class) is opened and contributes the names ITS body calls instead of its own; names of local
+    variables that happen to be called (`klass(...)`) and incidental copies (`dict(...)`) are not functions of the table."""
     out = set()
     for n in ast.walk(e):
         if isinstance(n, ast.Call):
             f = n.func
+            h = _helper(CTX["classes"], CTX["cname"], n) if (CTX["classes"] is not None and depth > 0) else None
+            if h is not None and not is_index_by_id(h[0]):
+                loc = {x.id for b in h[0].body for x in ast.walk(b) if isinstance(x, ast.Name) and isinstance(x.ctx, ast.Store)}
+                for b in strip_doc(h[0].body):
+                    out |= {c for c in call_names(b, depth - 1) if c not in loc}
+                continue
             if isinstance(f, ast.Attribute):
                 if f.attr not in ("load_state_dict", "items"):
                     out.add(f.attr)
             elif isinstance(f, ast.Name):
                 out.add(f.id)
-    return out
+    return {c for c in out if c not in CTX["locals"] and c not in INCIDENTAL}
 
 
 def uses_name(e, name):
     return any(isinstance(n, ast.Name) and n.id == name for n in ast.walk(e))
 
 
+
+# ----------------------------------------------------------------------------- normalisation (behaviour-preserving spellings)
+# Before a state_dict / load_state_dict / run-loop body is read, spellings that mean the same are reduced to one:
+#   * a call of a private helper — a module-level function of the scanned packages or a method of the same class — is replaced
+#     by the helper's body with the arguments substituted (helpers that are a single `return expr` inside expressions, helpers
+#     without a return value as statements; up to 3 levels; `"mean" + suffix` with a constant suffix is folded);
+#   * a local that only names an attribute chain (`dual_avg = self._dual_avg`) is replaced by the chain;
+#   * `{…, **{…}}` is flattened (dict_literal), `{…, **self._state_dict()}` is the `update(self._state_dict())` of old;
+#   * `if self._xs:` is `if len(self._xs) > 0:`.
+MODFUNCS = {}
+
+
+def strip_doc(body):
+    return [b for b in body if not (isinstance(b, ast.Expr) and isinstance(b.value, ast.Constant) and isinstance(b.value.value, str))]
+
+
+class _Sub(ast.NodeTransformer):
+    def __init__(self, env, kw=None):
+        self.env, self.kw = env, kw or {}
+
+    def visit_Name(self, node):
+        if node.id in self.env and isinstance(node.ctx, ast.Load):
+            return copy.deepcopy(self.env[node.id])
+        return node
+
+    def visit_Call(self, node):
+        self.generic_visit(node)
+        new = []
+        for k in node.keywords:
+            if k.arg is None and isinstance(k.value, ast.Name) and k.value.id in self.kw:
+                new.extend(copy.deepcopy(self.kw[k.value.id]))
+            else:
+                new.append(k)
+        node.keywords = new
+        return node
+
+    def visit_BinOp(self, node):
+        self.generic_visit(node)
+        if (isinstance(node.op, ast.Add) and isinstance(node.left, ast.Constant) and isinstance(node.right, ast.Constant)
+                and isinstance(node.left.value, str) and isinstance(node.right.value, str)):
+            return ast.copy_location(ast.Constant(node.left.value + node.right.value), node)
+        return node
+
+
+def _bind(fdef, call, skip_self):
+    params = [a.arg for a in fdef.args.args][1 if skip_self else 0:]
+    defaults = dict(zip(reversed(params), reversed(fdef.args.defaults)))
+    env, extra = {}, []
+    if len(call.args) > len(params) or any(isinstance(a, ast.Starred) for a in call.args):
+        return None
+    for p_, a in zip(params, call.args):
+        env[p_] = a
+    for k in call.keywords:
+        if k.arg is not None and k.arg in params:
+            env[k.arg] = k.value
+        else:
+            extra.append(k)
+    for p_ in params:
+        if p_ not in env:
+            if p_ not in defaults:
+                return None
+            env[p_] = defaults[p_]
+    kw = {}
+    if fdef.args.kwarg is not None:
+        kw[fdef.args.kwarg.arg] = extra
+    elif extra:
+        return None
+    if fdef.args.vararg is not None or fdef.args.kwonlyargs:
+        return None
+    return env, kw
+
+
+def _helper(classes, cname, call):
+    """the definition a call refers to, when it is a private helper we may open: (FunctionDef, is_method)"""
+    f = call.func
+    if isinstance(f, ast.Name) and f.id in MODFUNCS and f.id not in SAVE_CALLS and f.id not in ("process_object", "process_objects"):
+        return MODFUNCS[f.id], False
+    if (isinstance(f, ast.Attribute) and isinstance(f.value, ast.Name) and f.value.id == "self" and f.attr not in NAMES
+            and f.attr not in ("run", "_run", "_run_closure", "save_full_state", "state_dict", "load_state_dict") and cname):
+        r = resolve(classes, cname, f.attr)
+        if r is not None and not r[2] and not any("property" in ast.unparse(d) for d in r[1].decorator_list):
+            return r[1], True
+    return None
+
+
+def _assigned_locals(fdef):
+    out = set()
+    for n in ast.walk(fdef):
+        if isinstance(n, ast.Name) and isinstance(n.ctx, ast.Store):
+            out.add(n.id)
+    return out
+
+
+def fold_early_returns(stmts):
+    """`if c: return` followed by REST  ==  `if not c: REST`"""
+    out = []
+    for i, x in enumerate(stmts):
+        if (isinstance(x, ast.If) and not x.orelse and len(x.body) == 1 and isinstance(x.body[0], ast.Return)
+                and (x.body[0].value is None or (isinstance(x.body[0].value, ast.Constant) and x.body[0].value.value is None))):
+            rest = fold_early_returns(stmts[i + 1:])
+            if rest:
+                out.append(ast.fix_missing_locations(ast.If(test=ast.UnaryOp(op=ast.Not(), operand=x.test), body=rest, orelse=[], lineno=x.lineno, col_offset=0)))
+            return out
+        out.append(x)
+    return out
+
+
+def normalise_body(classes, cname, body, depth=3, expr_only=False, aliases=True):
+    body = strip_doc(body)
+
+    class ExprInline(ast.NodeTransformer):
+        def visit_Call(self, node):
+            self.generic_visit(node)
+            if depth <= 0:
+                return node
+            h = _helper(classes, cname, node)
+            if h is None:
+                return node
+            fdef, is_m = h
+            hb = strip_doc(fdef.body)
+            if len(hb) == 1 and isinstance(hb[0], ast.Return) and hb[0].value is not None:
+                b = _bind(fdef, node, is_m)
+                if b is None:
+                    return node
+                e = _Sub(*b).visit(copy.deepcopy(hb[0].value))
+                e = normalise_body(classes, cname, [ast.Expr(e)], depth - 1, True)[0].value
+                return ast.copy_location(e, node)
+            return node
+
+    out = []
+    for st in body:
+        # a helper called for its effect: splice its body
+        if isinstance(st, ast.Expr) and isinstance(st.value, ast.Call) and depth > 0 and not expr_only:
+            h = _helper(classes, cname, st.value)
+            if h is not None:
+                fdef, is_m = h
+                hb = strip_doc(fdef.body)
+                if hb and isinstance(hb[-1], ast.Return) and (hb[-1].value is None or (isinstance(hb[-1].value, ast.Constant) and hb[-1].value.value is None)):
+                    hb = hb[:-1]
+                hb = fold_early_returns(hb)
+                no_return = not any(isinstance(n, ast.Return) for x in hb for n in ast.walk(x))
+                b = _bind(fdef, st.value, is_m)
+                # the helper's own locals must not collide with the caller's
+                if no_return and b is not None and hb:
+                    sub = [_Sub(*b).visit(copy.deepcopy(x)) for x in hb]
+                    out.extend(normalise_body(classes, cname, sub, depth - 1, aliases=aliases))
+                    continue
+        st = ExprInline().visit(copy.deepcopy(st))
+        for fld in ("body", "orelse"):
+            if not expr_only and isinstance(getattr(st, fld, None), list) and getattr(st, fld) and isinstance(getattr(st, fld)[0], ast.stmt):
+                setattr(st, fld, normalise_body(classes, cname, getattr(st, fld), depth, aliases=aliases))
+        out.append(ast.fix_missing_locations(st))
+    if expr_only or not aliases:
+        return out
+    # locals that only name an attribute chain of self
+    counts = {}
+    for x in out:
+        for n in ast.walk(x):
+            if isinstance(n, ast.Name) and isinstance(n.ctx, ast.Store):
+                counts[n.id] = counts.get(n.id, 0) + 1
+    res, env = [], {}
+    for x in out:
+        tgt = val = None
+        if isinstance(x, ast.Assign) and len(x.targets) == 1 and isinstance(x.targets[0], ast.Name):
+            tgt, val = x.targets[0].id, x.value
+        elif isinstance(x, ast.AnnAssign) and isinstance(x.target, ast.Name) and x.value is not None:
+            tgt, val = x.target.id, x.value
+        if tgt and counts.get(tgt) == 1 and self_chain(val) and not isinstance(val, ast.Call):
+            env[tgt] = val
+            continue
+        res.append(ast.fix_missing_locations(_Sub(env).visit(x)) if env else x)
+    return res
+
+
+def normalised(classes, cname, fn):
+    new = copy.deepcopy(fn)
+    new.body = normalise_body(classes, cname, fn.body)
+    return new
+
+
+def is_index_by_id(fdef):
+    """def f(states): d = {}; for s in states: d.setdefault(s["id"], s); return d"""
+    b = strip_doc(fdef.body)
+    if len(b) != 3 or not isinstance(b[1], ast.For) or not isinstance(b[2], ast.Return):
+        return False
+    src = ast.unparse(b[1]).replace('"', "'")
+    return ".setdefault(" in src and "['id']" in src and len(b[1].body) == 1
+
+
 # ----------------------------------------------------------------------------- state_dict side
-def dict_literal(e, conds):
+def dict_literal(e, conds, spread=None):
     out = []
     for k, v in zip(e.keys, e.values):
+        if k is None and isinstance(v, ast.Dict):
+            out.extend(dict_literal(v, conds, spread))  # {**{…}}
+            continue
+        if k is None and spread is not None:
+            sub = spread(v)
+            if sub is not None:
+                out.extend((k2, at, join(conds + ([c] if c else []))) for k2, at, c in sub)
+                continue
         if not (isinstance(k, ast.Constant) and isinstance(k.value, str)):
             raise Unrecognised("dict key " + (ast.unparse(k) if k else "**"))
         out.append((k.value, norm_attr(first_attr(v)), join(conds)))
@@ -212,8 +428,21 @@ def written(classes, cname, meth="state_dict"):
     _, fn, abstract = r
     if abstract:
         raise Unrecognised(f"{cname}.{meth} is abstract")
+    fn = normalised(classes, cname, fn)
     local = {}  # local dict variable -> list of entries
     result = None
+
+    def spread(v):
+        """**self._state_dict() inside a literal == update(self._state_dict())"""
+        if (isinstance(v, ast.Call) and isinstance(v.func, ast.Attribute) and isinstance(v.func.value, ast.Name)
+                and v.func.value.id == "self" and v.func.attr in ("_state_dict", "state_dict") and v.func.attr != meth):
+            kind, sub = written(classes, cname, v.func.attr)
+            if kind != "keys":
+                raise Unrecognised("** of a delegated dictionary")
+            return sub
+        if isinstance(v, ast.Name) and v.id in local:
+            return local[v.id]
+        return None
 
     def block(stmts, conds):
         nonlocal result
@@ -225,14 +454,14 @@ def written(classes, cname, meth="state_dict"):
             if isinstance(st, ast.Assign) and len(st.targets) == 1:
                 t = st.targets[0]
                 if isinstance(t, ast.Name) and isinstance(st.value, ast.Dict):
-                    local[t.id] = dict_literal(st.value, conds)
+                    local[t.id] = dict_literal(st.value, conds, spread)
                     continue
                 if (isinstance(t, ast.Subscript) and isinstance(t.value, ast.Name) and t.value.id in local
                         and isinstance(t.slice, ast.Constant) and isinstance(t.slice.value, str)):
                     local[t.value.id].append((t.slice.value, norm_attr(first_attr(st.value)), join(conds)))
                     continue
             if isinstance(st, ast.AnnAssign) and isinstance(st.target, ast.Name) and isinstance(st.value, ast.Dict):
-                local[st.target.id] = dict_literal(st.value, conds)
+                local[st.target.id] = dict_literal(st.value, conds, spread)
                 continue
             if (isinstance(st, ast.Expr) and isinstance(st.value, ast.Call) and isinstance(st.value.func, ast.Attribute)
                     and st.value.func.attr == "update" and isinstance(st.value.func.value, ast.Name)
@@ -251,7 +480,7 @@ def written(classes, cname, meth="state_dict"):
                     tgt.extend((k, at, join(conds + ([c] if c else []))) for k, at, c in sub)
                     continue
                 if isinstance(a, ast.Dict):
-                    tgt.extend(dict_literal(a, conds))
+                    tgt.extend(dict_literal(a, conds, spread))
                     continue
             if isinstance(st, ast.If) and not st.orelse:
                 block(st.body, conds + [norm_cond(st.test)])
@@ -263,7 +492,7 @@ def written(classes, cname, meth="state_dict"):
                 if isinstance(v, ast.Name) and v.id in local:
                     result = ("keys", local[v.id])
                 elif isinstance(v, ast.Dict):
-                    result = ("keys", dict_literal(v, conds))
+                    result = ("keys", dict_literal(v, conds, spread))
                 elif (isinstance(v, ast.Call) and isinstance(v.func, ast.Attribute)
                       and v.func.attr == "state_dict" and self_chain(v.func.value) and not v.args):
                     result = ("delegate", self_chain(v.func.value))
@@ -298,6 +527,10 @@ def read(classes, cname, meth="load_state_dict"):
     if len(args) != 2:
         raise Unrecognised(f"{cname}.{meth}: signature {args}")
     sd = args[1]
+    fn = normalised(classes, cname, fn)
+    CTX.update(classes=classes, cname=cname,
+               locals={n.id for n in ast.walk(fn) if isinstance(n, ast.Name) and isinstance(n.ctx, ast.Store)})
+    indexed = {}  # local -> key: D = <index by id>(sd["k"])
     entries = []  # (key, attr, cond, via)
     delegate = None
     pending = {}  # local name -> [(key, cond, via-set)]
@@ -326,6 +559,19 @@ def read(classes, cname, meth="load_state_dict"):
             return False
         entries.append((ks[0], norm_attr(outer), join(conds + ["nonempty:" + outer]), ""))
         return True
+
+    def indexed_loop(st, conds):
+        """D = index_by_id(sd["k"]) … for o in self.xs: if o.id in D: o.load_state_dict(D[o.id])  ==  the nested search of child_loop"""
+        outer = self_chain(st.iter)
+        if outer is None or not isinstance(st.target, ast.Name) or len(st.body) != 1 or not isinstance(st.body[0], ast.If):
+            return False
+        o, test = st.target.id, st.body[0]
+        for d, key in indexed.items():
+            if (ast.unparse(test.test) == f"{o}.id in {d}" and not test.orelse
+                    and [ast.unparse(x) for x in test.body] == [f"{o}.load_state_dict({d}[{o}.id])"]):
+                entries.append((key, norm_attr(outer), join(conds + ["nonempty:" + outer]), ""))
+                return True
+        return False
 
     def only_locals(stmts):
         """statements that assign to local names / items of local names only"""
@@ -396,8 +642,15 @@ def read(classes, cname, meth="load_state_dict"):
                         entries.append((k, norm_attr(self_chain(st.value.func.value)),
                                         join(conds + ([c] if c else [])), vjoin(v)))
                     continue
+            if (isinstance(st, ast.Assign) and len(st.targets) == 1 and isinstance(st.targets[0], ast.Name) and isinstance(st.value, ast.Call)
+                    and isinstance(st.value.func, ast.Name) and st.value.func.id in MODFUNCS and is_index_by_id(MODFUNCS[st.value.func.id])
+                    and len(st.value.args) == 1 and len(sd_keys(st.value.args[0], sd)) == 1 and isinstance(st.value.args[0], ast.Subscript)):
+                indexed[st.targets[0].id] = sd_keys(st.value.args[0], sd)[0]
+                continue
             if isinstance(st, ast.For):
                 if child_loop(st, conds):
+                    continue
+                if indexed_loop(st, conds):
                     continue
                 if rewrite_loop(st):
                     continue
@@ -407,6 +660,20 @@ def read(classes, cname, meth="load_state_dict"):
             n_sub = sum(1 for n in ast.walk(st) if isinstance(n, ast.Subscript) and isinstance(n.value, ast.Name)
                         and n.value.id == sd)
             bare = len(whole) - n_sub  # uses of sd that are not sd["k"]
+            if (isinstance(st, ast.Expr) and isinstance(st.value, ast.Call) and isinstance(st.value.func, ast.Attribute)
+                    and st.value.func.attr == "load_state_dict" and self_chain(st.value.func.value) and len(st.value.args) == 1
+                    and isinstance(st.value.args[0], ast.DictComp) and len(st.value.args[0].generators) == 1
+                    and ast.unparse(st.value.args[0].generators[0].iter) == f"{sd}.items()" and not keys):
+                # X.load_state_dict({k: g(k, v) for k, v in sd.items()}): the whole dictionary, values rewritten by g
+                comp = st.value.args[0]
+                tk = comp.generators[0].target
+                if (isinstance(tk, ast.Tuple) and len(tk.elts) == 2 and ast.unparse(comp.key) == ast.unparse(tk.elts[0])
+                        and not comp.generators[0].ifs):
+                    if conds or entries:
+                        raise Unrecognised("partial delegation")
+                    CTX["locals"] -= {ast.unparse(tk.elts[0]), ast.unparse(tk.elts[1])}
+                    delegate = (self_chain(st.value.func.value), vjoin(call_names(comp.value)))
+                    continue
             if isinstance(st, ast.Expr) and isinstance(st.value, ast.Call) and isinstance(st.value.func, ast.Attribute):
                 f = st.value.func
                 if bare == 1 and not keys and len(st.value.args) == 1 and isinstance(st.value.args[0], ast.Name):
@@ -456,6 +723,7 @@ def read(classes, cname, meth="load_state_dict"):
 
 # ----------------------------------------------------------------------------- run loops
 SAVE_CALLS = ("save_full_state", "save_parameters")
+SNAPSHOTS = set()
 
 
 def classify(st, counter):
@@ -466,7 +734,12 @@ def classify(st, counter):
             raise Unrecognised("counter advanced by something else than `+= 1`: " + src)
         return "increment"
     if isinstance(st, ast.Assign) and ast.unparse(st.value) == counter and isinstance(st.targets[0], ast.Name):
+        SNAPSHOTS.add(st.targets[0].id)
         return "snapshot"  # completed = self._epoch
+    if (isinstance(st, ast.Assign) and len(st.targets) == 1 and ast.unparse(st.targets[0]) == counter and isinstance(st.value, ast.BinOp)
+            and isinstance(st.value.op, ast.Add) and ast.unparse(st.value.right) == "1"
+            and (ast.unparse(st.value.left) == counter or ast.unparse(st.value.left) in SNAPSHOTS)):
+        return "increment"  # self._epoch = completed + 1, completed being the snapshot just taken
     calls = [ast.unparse(n.func) for n in ast.walk(st) if isinstance(n, ast.Call)]
     if any(c.split(".")[-1] in SAVE_CALLS for c in calls):
         if not isinstance(st, ast.If):
@@ -530,9 +803,12 @@ def loops(classes):
                     counter, is_attr, implicit_inc = node.target.id, False, True
                 else:
                     continue
+                node = copy.copy(node)
+                node.body = normalise_body(classes, cname, node.body, aliases=False)
                 if not any(x in ast.unparse(node) for x in SAVE_CALLS):
                     continue  # a loop that never checkpoints
                 try:
+                    SNAPSHOTS.clear()
                     events = [classify(st, counter) for st in node.body]
                 except Unrecognised as e:
                     raise Unrecognised(f"{cname}.{mname}: {e}")
@@ -586,6 +862,10 @@ def translate(repo: Path):
         try:
             w = written(classes, cname) if rs else ("keys", [])
             r = read(classes, cname) if rl else ("keys", [])
+            if w[0] == "keys" and r[0] == "keys":
+                # one canonical order: that of the keys written (independent restores may come in any order)
+                order = [k for k, *_ in w[1]]
+                r = ("keys", sorted(r[1], key=lambda e_: order.index(e_[0]) if e_[0] in order else len(order)))
             if (w[0] == "delegate") != (r[0] == "delegate"):
                 raise Unrecognised(f"{cname}: delegation on one side only")
             table["classes"].append({"name": cname, "file": classes[cname]["file"], "written": w, "read": r})
